@@ -162,7 +162,7 @@ var verifPat = regexp.MustCompile("^[a-z]+$")
 // pat (^[a-z]+$), ip (ipv4 format), ipp (ipv4 format and pattern ^1); header X-S hs (<= 2 runes).
 func VerifC04_v2_strs() {
 	sPresent := nondetBool("s-present")
-	s := nondetStringUpTo("s", 4)
+	s := nondetStringUpTo("s", deep(4))
 	verifAssume(utf8.ValidString(s)) // JSON strings are valid UTF-8
 	var e, pat, ip, ipp *string
 	switch nondetChoice("which-optional", 5) {
@@ -170,17 +170,17 @@ func VerifC04_v2_strs() {
 		v := nondetString("ipp-a", 1) + "." + nondetString("ipp-b", 2) + ".0.1"
 		ipp = &v
 	case 1:
-		v := nondetStringUpTo("e", 2)
+		v := nondetStringUpTo("e", deep(2))
 		e = &v
 	case 2:
-		v := nondetStringUpTo("pat", 3)
+		v := nondetStringUpTo("pat", deep(3))
 		pat = &v
 	case 3:
 		v := nondetString("ip-a", 1) + "." + nondetString("ip-b", 2) + ".0.1"
 		ip = &v
 	}
 	hsPresent := nondetBool("hs-present")
-	hs := nondetString("hs", 1) + nondetStringUpTo("hs-tail", 2)
+	hs := nondetString("hs", 1) + nondetStringUpTo("hs-tail", deep(2))
 	req := newRequest("POST", nil)
 	if hsPresent {
 		// header field values: visible ASCII (RFC 7230 field-content)
